@@ -297,8 +297,8 @@ def corr_matcher(ck, rng):
 
 def corr_engine(ck, rng):
     from chython import smiles
-    n_corpus = 40 if ck.tier == 'quick' else 600
-    n_decor = 60 if ck.tier == 'quick' else 800
+    n_corpus = 30 if ck.tier == 'quick' else 600
+    n_decor = 40 if ck.tier == 'quick' else 800
     cases, meta = [], []
     mcases, mmeta = MATCHER_CASES
     del mcases[:], mmeta[:]
@@ -343,7 +343,7 @@ def corr_engine(ck, rng):
                  'spec': f'step_spec {e["c"]} {e["ridx"]} {e["g0"]} {maps_term(e["maps"])}'})
         # the matcher specification: the set of yielded mappings == the set of embeddings (matched rules, and a sample of unmatched ones)
         for k, e in enumerate(rec):
-            if e['eager'] or hash_pick(label, k, 'unmatched') % 40 == 0:
+            if e['eager'] or hash_pick(label, k, 'unmatched') % (160 if tag == 'small' else 60 if ck.tier == 'quick' else 40) == 0:
                 if len(e['eager']) <= 48:
                     mcases.append(f'matches_ok {e["c"]} {e["ridx"]} {e["rings"]} {e["g0"]} {maps_term(e["eager"])}')
                     mmeta.append({'kind': 'matcher', 'tag': tag, 'mol': label, 'rule': f'{COLL[e["c"]]}[{e["ridx"]}]', 'yielded': len(e['eager'])})
